@@ -216,6 +216,23 @@ func verifSchedRun(spec *VerifSchedSpec) (res *VerifSchedResult) {
 			if v != "" && vt.CheckInput(term2, promptLast, line, c.Pos(), relaxed, 5) == "" {
 				v = ""
 			}
+			// what a completed Printf wrote must be on the screen as it was written: one row above
+			// the input holding exactly the message (12 rows: nothing scrolls away in these scripts)
+			if v == "" && res.DisturbancesDone {
+				snap := term.Snapshot()
+				for n := 0; n < started; n++ {
+					want := fmt.Sprintf("async %d", n)
+					found := false
+					for y := 0; y < snap.CY && y < len(snap.Lines); y++ {
+						if strings.TrimRight(snap.Lines[y], " ") == want {
+							found = true
+						}
+					}
+					if !found {
+						v = fmt.Sprintf("printf-output: no row above the cursor shows exactly the printed message %q", want)
+					}
+				}
+			}
 			res.ScreenJudged = true
 			res.ScreenVerdict = v
 			res.Screen = term.Snapshot().Lines
